@@ -8,8 +8,9 @@ import p1_common as P
 ASSUMPTIONS = ["readouts are generated inside the domain of the statement (decidable WF, size <= guard; checked by the driver)"]
 
 
-def _run_cases(res, cases, family):
-    """cases: (tail, descs, cuts)"""
+def _run_cases(res, cases, family, beyond_theorem=False):
+    """cases: (tail, descs, cuts); beyond_theorem: the tail contains a start character (outside the hypotheses of
+    p1_clean_delivered, whose tail is '/'-free) — the property is still judged on the implementation"""
     reqs = [P.clean_request(t, ds, cuts) for t, ds, cuts in cases]
     for (tail, ds, cuts), req, a in zip(cases, reqs, lib.drive(reqs)):
         wire_hex, model, spec, dom, chunks = P.parse_clean_answer(a)
@@ -22,7 +23,7 @@ def _run_cases(res, cases, family):
         impl = P.readouts_of(calls)
         if impl != model:
             res.tie_break(case, impl[:4], model[:4] if isinstance(model, list) else model, family)
-        if dom:
+        if dom or beyond_theorem:
             if impl != spec:
                 res.prop_failure(case, f"clean stream of {len(spec)} readouts ({len(wire_hex)//2} bytes, {len(chunks)} chunks): delivered {len(impl)}; "
                                        f"first difference at index {next((i for i,(x,y) in enumerate(zip(impl,spec)) if x!=y), min(len(impl),len(spec)))}", family)
@@ -112,6 +113,31 @@ def run(res, tier, seed, widen=1):
         cases.append((b"", ds, structural_cuts(rng, b"", ds)))
     for i in range(0, len(cases), 500):
         _run_cases(res, cases[i:i + 500], "generated")
+    # the reader joined inside an identification line whose id contains '/' (legal for the code's pattern, not for
+    # IEC 62056-21): the tail then contains a start character that does not begin a readout
+    cases = []
+    for _ in range(150 if tier == "quick" else 4000):
+        ds = [P.gen_desc(rng) for _ in range(rng.choice([2, 3, 5]))]
+        first = P.gen_readout(rng)
+        lf = first.find(b"\n")
+        ident = bytearray(first[:lf + 1])
+        if len(ident) > 8:
+            ident[rng.randrange(6, len(ident) - 2)] = 0x2F
+        t = bytes(ident) + first[lf + 1:]
+        tail = t[rng.randrange(1, max(2, t.rfind(b"/") + 1)):]
+        from props.c04 import wf_ident
+        k0 = tail.find(b"/")
+        if k0 >= 0 and wf_ident(tail[k0:tail.find(b"\n", k0) if b"\n" in tail[k0:] else len(tail)].strip()):
+            continue    # the tail itself looks like the start of a readout: not a clean stream in the sense of C05
+        est = len(tail) + sum(40 + sum(len(l) + 2 for l in d[4]) for d in ds)
+        k = rng.randrange(3)
+        if k == 0:
+            cuts = fixed_cuts(est + 64, rng.choice([3, 7, 11, 17, 29]))
+        else:
+            cuts = sorted(set(rng.randrange(1, max(2, est)) for _ in range(rng.choice([1, 2, 4, 9]))))
+        cases.append((tail, ds, cuts))
+    for i in range(0, len(cases), 500):
+        _run_cases(res, cases[i:i + 500], "tail_with_start_character", beyond_theorem=True)
 
 
 def search(res, tier, seed):
